@@ -26,7 +26,12 @@ star projections) — the declarative relation; decider `Ty.isSubD`, sound for `
 * `irrelevantNominal_sound`, `irrelevantNominal_unrelated`: a non-generic candidate the
   exclusion step lets through is in none of the two lists, and the code's own subtype test
   does not relate it to the query.
-* `finding_generic_subclass`, `finding_same_constructor`: the two witnessed answers of
+* `availRepaired_sound`: the exclusion step of the repaired `find_irrelevant_type` additionally
+  excludes the top type and the constructors all of whose instantiations are subtypes.
+* `relatedUnbounded_partial`: argument vectors chosen position-wise by declaration-site variance
+  (or inside a use-site projection) give declarative subtypes: the unbounded case of
+  `_construct_related_types`.
+* `finding_generic_subclass`, `finding_same_constructor`, `finding_top_type`: the two witnessed answers of
   `find_irrelevant_type` (replayed on the real code by the harness) are rejected by the checker,
   hence genuine violations.
 -/
@@ -277,5 +282,176 @@ theorem irrelevantNominal_unrelated (anyT τ : Ty) (types sups subs : List Ty)
       rw [memBeq_mono_addTy m1] at hsup
       cases hsup
     · simpa using hq
+
+/-- the exclusion step of the repaired code: a candidate is in `types`, not relevant, not the top
+    type, and not a constructor whose every instantiation is a subtype of the query -/
+theorem availRepaired_sound (anyT etype : Ty) (relevant : List Ty) :
+    ∀ (types l : List Ty), availRepaired anyT etype relevant types = .ok l →
+      ∀ t ∈ l, t ∈ types ∧ memBeq t relevant = false ∧ beq t anyT = false ∧
+        (t.isTCon = true → isSubtype t etype = .no) := by
+  intro types
+  induction types with
+  | nil =>
+    intro l h t ht
+    simp only [availRepaired, FR.ok.injEq] at h
+    subst h; cases ht
+  | cons x xs ih =>
+    intro l h t ht
+    unfold availRepaired at h
+    split at h
+    · obtain ⟨h1, h2⟩ := ih l h t ht
+      exact ⟨List.mem_cons_of_mem _ h1, h2⟩
+    · rename_i hx
+      simp only [Bool.or_eq_true, not_or, Bool.not_eq_true] at hx
+      split at h
+      · rename_i hc
+        split at h
+        · obtain ⟨h1, h2⟩ := ih l h t ht
+          exact ⟨List.mem_cons_of_mem _ h1, h2⟩
+        · rename_i hn
+          split at h
+          · rename_i r hr
+            simp only [FR.ok.injEq] at h
+            subst h
+            rcases List.mem_cons.1 ht with rfl | ht
+            · exact ⟨List.mem_cons_self, hx.1, hx.2, fun _ => hn⟩
+            · obtain ⟨h1, h2⟩ := ih r hr t ht
+              exact ⟨List.mem_cons_of_mem _ h1, h2⟩
+          · rename_i hne
+            exact absurd h (by intro h'; exact hne _ h')
+        · cases h
+        · cases h
+        · cases h
+      · rename_i hc
+        split at h
+        · rename_i r hr
+          simp only [FR.ok.injEq] at h
+          subst h
+          rcases List.mem_cons.1 ht with rfl | ht
+          · exact ⟨List.mem_cons_self, hx.1, hx.2, fun hc' => absurd hc' hc⟩
+          · obtain ⟨h1, h2⟩ := ih r hr t ht
+            exact ⟨List.mem_cons_of_mem _ h1, h2⟩
+        · rename_i hne
+          exact absurd h (by intro h'; exact hne _ h')
+
+/-! ## 5. Examples and the witnessed findings -/
+
+def anyT : Ty := builtin "<class 'src.ir.kotlin_types.AnyType'>" "Any" false false []
+def stringT : Ty := builtin "<class 'src.ir.kotlin_types.StringType'>" "String" false false [anyT]
+def tcCls : String := "<class 'src.ir.types.TypeConstructor'>"
+def fooT : Ty := simple "Foo" [anyT]
+def bazT : Ty := simple "Baz" [anyT]
+def subFooT : Ty := simple "SubFoo" [fooT]
+/-- `class Bar<T> : Foo` -/
+def barC : Ty := tcon tcCls "Bar" [tparam "T" 0 none] [fooT]
+/-- `class Prod<out T>` -/
+def prodC : Ty := tcon tcCls "Prod" [tparam "T" 1 none] [anyT]
+def typesEx : List Ty := [fooT, subFooT, barC, bazT, stringT]
+
+/-- the nominal search on a small table: `SubFoo` and the constructor `Bar` are found below `Foo` -/
+example : (match findTypesNominal fooT typesEx true false none with
+    | .ok l => l.map getName | _ => []) = ["SubFoo", "Bar"] := by decide
+example : (match findTypesNominal subFooT typesEx false true none with
+    | .ok l => l.map getName | _ => []) = ["SubFoo", "Foo", "Any"] := by decide
+/-- the hypotheses of `findNominal_sound` hold of the table -/
+example : wf fooT = true ∧ (∀ c ∈ typesEx, wf c = true) ∧ reg fooT = true := by decide
+/-- accepted answers -/
+example : subtypesOK [] true true true none fooT [fooT, subFooT, tconNew barC [stringT]] = true := by decide
+example : irrelevantOK [] anyT fooT (some bazT) = true := by decide
+example : irrelevantOK [] anyT anyT none = true := by decide
+/-- rejected: a bare constructor with `concrete_only`, the query without `include_self`,
+    an answer for the top type -/
+example : subtypesOK [] true false true none fooT [barC] = false := by decide
+example : subtypesOK [] true false false none fooT [fooT, subFooT] = false := by decide
+example : irrelevantOK [] anyT anyT (some bazT) = false := by decide
+/-- the exclusion step: `Baz` and `String` pass; for the unchanged code so does the constructor
+    `Bar` (finding below), for the repaired code it does not -/
+example : (availTypes typesEx [fooT, anyT, subFooT, tconNew barC [stringT]]).map getName =
+    ["Bar", "Baz", "String"] := by decide
+example : (match availTypesV .repaired anyT fooT typesEx [fooT, anyT, subFooT, tconNew barC [stringT]] with
+    | .ok l => l.map getName | _ => []) = ["Baz", "String"] := by decide
+
+/-- **finding (generic subclass).** With `class Bar<T> : Foo`, the answer `Bar<String>` that
+    `find_irrelevant_type(Foo)` gives (replayed by the harness) is rejected by the checker … -/
+theorem finding_generic_subclass :
+    irrelevantOK [] anyT fooT (some (tconNew barC [stringT])) = false := by decide
+
+/-- … and is a declarative subtype of `Foo` (in every universe) -/
+theorem finding_generic_subclass_subT (U : Ty → Prop) : SubT U (tconNew barC [stringT]) fooT :=
+  SubT.nominal (by rw [show (tconNew barC [stringT]).sups = [fooT] from by rfl]; exact List.mem_singleton.2 rfl)
+
+/-- **finding (same constructor).** For `Prod<Any>` with `class Prod<out T>` the answer
+    `Prod<Foo>` is rejected by the checker … -/
+theorem finding_same_constructor :
+    irrelevantOK [] anyT (tconNew prodC [anyT]) (some (tconNew prodC [fooT])) = false := by decide
+
+/-- … and is a declarative subtype of `Prod<Any>`: covariant argument `Foo ≤ Any` -/
+theorem finding_same_constructor_subT (U : Ty → Prop) :
+    SubT U (tconNew prodC [fooT]) (tconNew prodC [anyT]) :=
+  SubT.args (by decide)
+    (ContL.cons (Cont.declCo (by decide) (by decide) (by decide) (SubT.nominal (by rw [show fooT.sups = [anyT] from rfl]; exact List.mem_singleton.2 rfl)))
+      (ContL.stop (Or.inl rfl)))
+
+/-- **finding (top type).** `Any` as an answer for a class without declared superclass is
+    rejected: it is above everything -/
+theorem finding_top_type : irrelevantOK [] anyT (simple "Lone" []) (some anyT) = false := by decide
+
+/-- the rejections are genuine (`irrelevantOK_reject_sound`, full universe) -/
+example : (tconNew barC [stringT]).isTCon = true ∨
+    Asg (fun _ => True) (tconNew barC [stringT]) (irrTarget anyT fooT) ∨
+    Asg (fun _ => True) (irrTarget anyT fooT) (tconNew barC [stringT]) :=
+  irrelevantOK_reject_sound (fun _ => True) (fun _ _ _ _ => trivial) (fun _ _ _ _ _ _ _ _ _ => trivial) []
+    (fun _ h => nomatch h) anyT fooT _ trivial trivial (by decide) finding_generic_subclass
+
+/-! ## 6. The unbounded case of `_construct_related_types` -/
+
+/-- one position of a related instantiation: the new argument `b` is the old one `a`, or — when
+    the declared variance of the parameter is covariant (contravariant) — a declarative subtype
+    (supertype) of it, or a subtype (supertype) of the bound of a use-site `out` (`in`)
+    projection `a` -/
+inductive RelArg (U : Ty → Prop) : Ty → Ty → Ty → Prop
+  | same {tp b a} : beq b a = true → RelArg U tp b a
+  | co {tp b a} : variance tp = 1 → isWild b = false → isWild a = false → SubT U b a → RelArg U tp b a
+  | contra {tp b a} : variance tp = 2 → isWild b = false → isWild a = false → SubT U a b → RelArg U tp b a
+  | useOut {tp b bd} : isWild b = false → SubT U b bd → RelArg U tp b (wild 1 (some bd))
+  | useIn {tp b bd} : isWild b = false → SubT U bd b → RelArg U tp b (wild 2 (some bd))
+  | outOut {tp bd bd'} : SubT U bd bd' → RelArg U tp (wild 1 (some bd)) (wild 1 (some bd'))
+
+/-- position-wise along the parameters -/
+inductive RelArgs (U : Ty → Prop) : List Ty → List Ty → List Ty → Prop
+  | nil : RelArgs U [] [] []
+  | cons {tp tps b bs a as} : RelArg U tp b a → RelArgs U tps bs as →
+      RelArgs U (tp :: tps) (b :: bs) (a :: as)
+
+theorem RelArg.cont {U : Ty → Prop} {tp b a : Ty} (h : RelArg U tp b a) : Cont U tp b a := by
+  cases h with
+  | same h => exact Cont.same h
+  | co h1 h2 h3 h4 => exact Cont.declCo h1 h2 h3 h4
+  | contra h1 h2 h3 h4 => exact Cont.declContra h1 h2 h3 h4
+  | useOut h1 h2 => exact Cont.useOut h1 h2
+  | useIn h1 h2 => exact Cont.useIn h1 h2
+  | outOut h => exact Cont.outOut h
+
+theorem RelArgs.contL {U : Ty → Prop} {tps bs as : List Ty} (h : RelArgs U tps bs as) :
+    ContL U tps bs as := by
+  induction h with
+  | nil => exact ContL.stop (Or.inl rfl)
+  | cons h _ ih => exact ContL.cons h.cont ih
+
+/-- **the subtype direction of `_construct_related_types` for a class without bounds** (the
+    search chooses every argument by the declared variance of its position, or inside a
+    use-site projection): whatever vector is chosen position-wise in this way, the
+    instantiation is a declarative subtype of the query.  Bounded parameters (where the code
+    re-derives arguments by unification) are not covered: `find_types:…/param-bounded-param`
+    is a recorded violation there. -/
+theorem relatedUnbounded_partial (U : Ty → Prop) (nm nm' : String) (con : Ty) (as bs ss ss' : List Ty)
+    (hcon : beq con con = true) (h : RelArgs U (conParams con) bs as) :
+    SubT U (param nm' con bs ss') (param nm con as ss) :=
+  SubT.args hcon h.contL
+
+/-- `Prod<Foo>` is related to `Prod<Any>` in this sense (`Prod<out T>`) -/
+example (U : Ty → Prop) : RelArgs U (conParams prodC) [fooT] [anyT] :=
+  RelArgs.cons (RelArg.co (by decide) (by decide) (by decide)
+    (SubT.nominal (by rw [show fooT.sups = [anyT] from rfl]; exact List.mem_singleton.2 rfl))) RelArgs.nil
 
 end Heph.Props.C09
